@@ -649,6 +649,10 @@ func (g *Gen) subRef(st types.Type, i int, r string) string {
 	if !g.funDecl[fn] {
 		g.funDecl[fn] = true
 		g.prel = append(g.prel, fmt.Sprintf("(declare-fun |%s| (Int) Int)", fn), fmt.Sprintf("(declare-fun |%s_inv| (Int) Int)", fn))
+		// the same facts as below, for every object at once (needed where the object is a quantified position,
+		// e.g. the hash field of the j-th transaction of a list)
+		g.needFldTag()
+		g.assumeGlobal(fmt.Sprintf("(forall ((r Int)) (! (ite (= r 0) (= (|%s| r) 0) (and (= (fldtag (|%s| r)) %d) (= (|%s_inv| (|%s| r)) r) (=> (< r %s) (and (< 0 (|%s| r)) (< (|%s| r) %s))) (=> (>= r %s) (>= (|%s| r) %s)) (not (= (|%s| r) 0)))) :pattern ((|%s| r))))", fn, fn, fldCode(fn), fn, fn, refBound, fn, fn, refBound, refBound, fn, refBound, fn, fn))
 	}
 	t := fmt.Sprintf("(|%s| %s)", fn, r)
 	key := "inj:" + t
@@ -1820,7 +1824,17 @@ func (g *Gen) loopHead(b *ssa.BasicBlock, k int, li *loopInfo) {
 				inner := s[len("(Array Int ") : len(s)-1]
 				h := g.heapGet(n)
 				for _, r := range refs {
-					h = fmt.Sprintf("(store %s %s %s)", h, r, g.fresh("hv_"+n+"@loop", inner))
+					hv := g.fresh("hv_"+n+"@loop", inner)
+					h = fmt.Sprintf("(store %s %s %s)", h, r, hv)
+					// what the rewritten row holds exists when the head is reached (see loopHeadRefsAxiom)
+					switch g.refComps[n] {
+					case "field":
+						g.assumeAlways(g.beforeHere(hv))
+					case "slicefield":
+						g.assumeAlways(g.beforeHere(fmt.Sprintf("(base %s)", hv)))
+					case "mem":
+						g.assumeGlobal(fmt.Sprintf("(forall ((i %s)) (! %s :pattern ((select %s i))))", g.idxSort(), g.beforeHere(fmt.Sprintf("(select %s i)", hv)), hv))
+					}
 				}
 				g.cur[n] = g.define("H_"+n+"@loop", s, h)
 				continue
